@@ -41,10 +41,46 @@ class aware:
         return False
 
 
+NUMPY = False   # when set (`numpy_numbers`), prices and volumes are handed over as numpy.float64 (a float SUBCLASS: what rows of an
+                # ndarray / DataFrame carry)
+
+
+class numpy_numbers:
+    def __init__(self, on):
+        self.on = bool(on)
+
+    def __enter__(self):
+        global NUMPY
+        self.old, NUMPY = NUMPY, self.on
+        return self
+
+    def __exit__(self, *exc):
+        global NUMPY
+        NUMPY = self.old
+        return False
+
+
+def have_numpy():
+    try:
+        import numpy  # noqa: F401
+
+        return True
+    except Exception:
+        return False
+
+
+def np_row(t):
+    if not NUMPY:
+        return t
+    import numpy as np
+
+    return (t[0],) + tuple(np.float64(x) for x in t[1:6]) + tuple(t[6:])
+
+
 def mk_candle(t):
     from hexital.core.candle import Candle
 
-    ts, o, h, l, c, v = t
+    ts, o, h, l, c, v = np_row(t)[:6]
     stamp = wire.secs_to_ts(ts)
     if stamp is not None and TZOFF is not None:
         from datetime import timezone
